@@ -39,7 +39,15 @@ var c06SrcCands = []string{
 	"@@||ref.com^$document", "@@||ref.com^$elemhide", "@@||ref.com^$urlblock,badfilter", "@@||ref.com^$genericblock,badfilter",
 	"||ref.com^", "@@||ref.com^$stealth", "@@||ref.com^$jsinject", "@@||ref.com^$genericblock,domain=~x.com", "@@||ref.com^$document,badfilter",
 	"@@||ref.com^$urlblock,genericblock", "@@||ref.com^$genericblock,document", "@@||ref.com^$genericblock,urlblock,important",
+	// a document-level exception that is a stealth exception as well
+	"@@||ref.com^$document,stealth", "@@||ref.com^$urlblock,stealth", "@@||ref.com^$genericblock,stealth",
 }
+
+// referrer-level exceptions for another page of the referrer's host: they match the
+// referrer http://ref.com/checkout only, never the referrer of the request itself.
+var c06DecoyCands = []string{"@@||ref.com/checkout^$urlblock", "@@||ref.com/checkout^$document,important", "@@||ref.com/checkout^$genericblock"}
+
+const c06DecoySrc = "http://ref.com/checkout"
 
 // host-level candidates for the DNS flavour, all matching host ads.com, type A.
 var c06DNSCands = []string{
@@ -56,6 +64,7 @@ type c06Case struct {
 	DNS    bool     `json:"dns,omitempty"`
 	Orders [][]int  `json:"orders,omitempty"` // line orders for the engine entry points
 	Split  []int    `json:"split,omitempty"`  // list index per line (engine entry points)
+	Decoys []string `json:"decoys,omitempty"` // exceptions for another page of the referrer's host (engine entry points)
 }
 
 type c06Feat struct {
@@ -183,7 +192,9 @@ func c06ClassOf(g *rules.NetworkRule) string {
 	if g == nil {
 		return "none"
 	}
-	if g.IsOptionEnabled(rules.OptionBadfilter) || g.DNSRewrite != nil || g.IsOptionEnabled(rules.OptionStealth) {
+	// a document-level exception that also carries $stealth is still a document-level exception
+	docLevel := g.Whitelist && (g.IsOptionEnabled(rules.OptionUrlblock) || g.IsOptionEnabled(rules.OptionGenericblock))
+	if g.IsOptionEnabled(rules.OptionBadfilter) || g.DNSRewrite != nil || (g.IsOptionEnabled(rules.OptionStealth) && !docLevel) {
 		return "SPECIAL(" + g.Text() + ")"
 	}
 	if g.Whitelist {
@@ -350,6 +361,11 @@ func checkC06(c c06Case, rec *Rec) *Violation {
 			}
 			lists[li].Text += lines[x] + "\n"
 		}
+		if !c.DNS {
+			for i, dl := range c.Decoys {
+				lists[i%nl].Text += dl + "\n"
+			}
+		}
 		st, cleanup, err := buildStorage(lists)
 		if err != nil {
 			return viol(id, "C06:harness", "storage: %v", err)
@@ -365,7 +381,22 @@ func checkC06(c c06Case, rec *Rec) *Violation {
 			continue
 		}
 		e := urlfilter.NewEngine(st)
+		if len(c.Decoys) > 0 {
+			// the same engine is first asked about the request coming from another page of the referrer's host
+			wantDecoy := c06RefClass(c.Req, append(append([]string{}, src...), c.Decoys...))
+			if g := c06ClassOf(e.MatchRequest(rules.NewRequest(c06URL, c06DecoySrc, rules.TypeImage)).GetBasicResult()); g != wantDecoy {
+				cleanup()
+				return viol(id, c06Sig(c, "Engine.MatchRequest")+":other-referrer-page", "Engine.MatchRequest from referrer %s over lists %+v -> %s, reference class %s", c06DecoySrc, lists, g, wantDecoy)
+			}
+		}
 		got := c06ClassOf(e.MatchRequest(rules.NewRequest(c06URL, c06Src, rules.TypeImage)).GetBasicResult())
+		if len(c.Decoys) > 0 && got == want {
+			wantDecoy := c06RefClass(c.Req, append(append([]string{}, src...), c.Decoys...))
+			if g := c06ClassOf(e.MatchRequest(rules.NewRequest(c06URL, c06DecoySrc, rules.TypeImage)).GetBasicResult()); g != wantDecoy {
+				cleanup()
+				return viol(id, c06Sig(c, "Engine.MatchRequest")+":other-referrer-page", "Engine.MatchRequest from referrer %s (after a request from %s) over lists %+v -> %s, reference class %s", c06DecoySrc, c06Src, lists, g, wantDecoy)
+			}
+		}
 		ne := urlfilter.NewNetworkEngine(st)
 		r2, ok2 := ne.Match(rules.NewRequest(c06URL, c06Src, rules.TypeImage))
 		got2 := c06ClassOf(r2)
@@ -390,6 +421,9 @@ func genC06(t *rapid.T) c06Case {
 		if chance(t, "with-src", 2) {
 			c.Src = subsetOf(t, "src-cands", c06SrcCands, 4)
 		}
+	}
+	if !c.DNS && chance(t, "other-referrer-page", 3) {
+		c.Decoys = subsetOf(t, "decoys", c06DecoyCands, 2)
 	}
 	if chance(t, "duplicate-rule", 3) {
 		// the same rule text twice (e.g. present in two lists)
